@@ -244,6 +244,145 @@ mut("C05", "empty-client-value-kept", "pkg/reverseproxy/handler.go",
 mut("C05", "h2-only-delete", "pkg/reverseproxy/handler.go",
     "		r.Out.Header.Del(k)\n", "		if r.In.ProtoMajor == 2 {\n			r.Out.Header.Del(k)\n		}\n")
 
+mut("C19", "undo-D18", "pkg/http2/frame.go",
+    "	case FrameHeaders, FrameContinuation, FramePushPromise:", "	case FrameHeaders, FrameContinuation:")
+mut("C19", "undo-D19", "pkg/http2/frame.go",
+    "		return nil, 0, errShortPayload", "		return nil, 0, io.ErrUnexpectedEOF", count=2)
+
+# ---- C03
+mut("C03", "priority-cut-off-by-one", "pkg/metadata/http2.go",
+    "		for i, p := range f.Priorities[:maxPriorityFrames] {", "		for i, p := range f.Priorities[:max(maxPriorityFrames, 2)-1] {")
+mut("C03", "weight-without-plus-one", "pkg/metadata/http2.go",
+    "p.StreamDep, int(p.Weight)+1))", "p.StreamDep, int(p.Weight)))")
+mut("C03", "settings-accumulate", "pkg/metadata/http2.go",
+    "	f.Settings = settings\n", "	f.Settings = append(f.Settings, settings...)\n")
+mut("C03", "window-update-latest", "pkg/metadata/http2.go",
+    "	if f.WindowUpdateIncrement == 0 {\n		f.WindowUpdateIncrement = increment\n	}", "	f.WindowUpdateIncrement = increment")
+mut("C03", "settings-ack-captured", "pkg/http2/server.go",
+    "		if !f.IsAck() {\n			if md, ok := metadata.FromContext(sc.baseCtx); ok {", "		if true {\n			if md, ok := metadata.FromContext(sc.baseCtx); ok {")
+mut("C03", "flag-not-wired", "fingerproxy.go",
+    "		h2fp.MaxPriorityFrames = *flagMaxHTTP2PriorityFrames", "		h2fp.MaxPriorityFrames = math.MaxUint")
+mut("C03", "priority-frames-not-captured", "pkg/metadata/http2.go",
+    "	f.Priorities = append(f.Priorities, priority)\n", "	_ = priority\n")
+mut("C03", "regular-headers-in-ps", "pkg/metadata/http2.go",
+    "		if len(h.Name) >= 2 && h.Name[0] == ':' {", "		if len(h.Name) >= 2 && (h.Name[0] == ':' || h.Name[0] == 'h') {")
+mut("C03", "window-update-format", "pkg/metadata/http2.go",
+    'fmt.Sprintf("%02d|", f.WindowUpdateIncrement)', 'fmt.Sprintf("%d|", f.WindowUpdateIncrement)')
+mut("C03", "exclusive-bit-inverted", "pkg/metadata/http2.go",
+    '			if p.Exclusive {\n				buf.WriteString("1:")', '			if !p.Exclusive {\n				buf.WriteString("1:")')
+mut("C03", "limit-zero-means-unlimited", "pkg/metadata/http2.go",
+    "	if maxPriorityFrames == 0 {\n		// If this feature", "	if len(f.Priorities) == 0 {\n		// If this feature")
+mut("C03", "headers-priority-dep-from-stream", "pkg/http2/server.go",
+    "					StreamDep: f.Priority.StreamDep,", "					StreamDep: f.StreamID - 1,")
+mut("C03", "h2-fingerprint-on-h1", "pkg/fingerprint/fingerprint.go",
+    '	if data.ConnectionState.NegotiatedProtocol == "h2" {', '	if data.ConnectionState.NegotiatedProtocol != "" {')
+
+# ---- C08
+H = "pkg/reverseproxy/handler.go"
+mut("C08", "preserve-host-inverted", H,
+    "	if f.PreserveHost {\n", "	if !f.PreserveHost {\n")
+mut("C08", "preserve-host-flag-not-wired", "fingerproxy.go",
+    "	handler.PreserveHost = *flagPreserveHost\n", "")
+mut("C08", "rewrite-deletes-authorization", H,
+    "	r.SetXForwarded()\n", "	r.SetXForwarded()\n	r.Out.Header.Del(\"Authorization\")\n")
+mut("C08", "rewrite-adds-via", H,
+    "	r.SetXForwarded()\n", "	r.SetXForwarded()\n	r.Out.Header.Add(\"Via\", \"1.1 fingerproxy\")\n")
+mut("C08", "rewrite-unescapes-path", H,
+    "	r.SetURL(f.To)\n", "	r.SetURL(f.To)\n	r.Out.URL.RawPath = \"\"\n")
+mut("C08", "modify-response-strips-server-header", "fingerproxy.go",
+    "			ErrorHandler:  proxyErrorHandler,\n", "			ErrorHandler:  proxyErrorHandler,\n			ModifyResponse: func(res *http.Response) error { res.Header.Del(\"Server\"); return nil },\n")
+mut("C08", "transport-4k-response-header-limit", "fingerproxy.go",
+    "			Transport: http.DefaultTransport.(*http.Transport).Clone(),\n", "			Transport: func() *http.Transport {\n				t := http.DefaultTransport.(*http.Transport).Clone()\n				t.MaxResponseHeaderBytes = 4 << 10\n				return t\n			}(),\n")
+mut("C08", "h2-cookie-crumbs-joined-without-space", "pkg/http2/server.go",
+    "strings.Join(cookies, \"; \")", "strings.Join(cookies, \";\")")
+mut("C08", "h2-response-trailers-dropped", "pkg/http2/server.go",
+    "	hasNonemptyTrailers := rws.hasNonemptyTrailers()\n", "	hasNonemptyTrailers := false\n")
+mut("C08", "h2-response-only-first-trailer", "pkg/http2/server.go",
+    "			trailers:  rws.trailers,\n", "			trailers:  rws.trailers[:1],\n")
+mut("C08", "h2-one-byte-data-frame-dropped", "pkg/http2/server.go",
+    "		if len(data) > 0 {\n			st.bodyBytes += int64(len(data))", "		if len(data) > 1 {\n			st.bodyBytes += int64(len(data))")
+mut("C08", "h2-response-header-clone-keeps-first-value-only", "pkg/http2/server.go",
+    "		copy(vv2, vv)\n", "		copy(vv2, vv[:1])\n")
+mut("C08", "h2-pipe-close-discards-buffered-body", "pkg/http2/pipe.go",
+    "func (p *pipe) CloseWithError(err error) { p.closeWithError(&p.err, err, nil) }", "func (p *pipe) CloseWithError(err error) { p.closeWithError(&p.breakErr, err, nil) }")
+mut("C08", "h2-databuffer-small-chunk-never-appended-to", "pkg/http2/databuffer.go",
+    "		if b.w < len(last) {", "		if b.w < len(last) && len(last) > 1<<10 {")
+
+# ---- C07
+mut("C07", "marshal-without-rlock", "pkg/metadata/http2.go",
+    "	f.mu.RLock()\n	defer f.mu.RUnlock()\n", "")
+mut("C07", "setsettings-without-lock", "pkg/metadata/http2.go",
+    "func (f *HTTP2FingerprintingFrames) SetSettings(settings []Setting) {\n	f.mu.Lock()\n	defer f.mu.Unlock()\n", "func (f *HTTP2FingerprintingFrames) SetSettings(settings []Setting) {\n")
+mut("C07", "capture-after-processing", "pkg/http2/server.go",
+    "			md.HTTP2Frames.SetHeaders(headers, priority)\n		}\n		return sc.processHeaders(f)", "			defer md.HTTP2Frames.SetHeaders(headers, priority)\n		}\n		return sc.processHeaders(f)")
+mut("C07", "headers-and-priority-in-two-steps", "pkg/metadata/http2.go",
+    "	f.mu.Lock()\n	defer f.mu.Unlock()\n	f.Headers = headers\n	if priority != nil {\n		f.Priorities = append(f.Priorities, *priority)\n	}", "	f.mu.Lock()\n	f.Headers = headers\n	f.mu.Unlock()\n	if priority != nil {\n		runtime.Gosched()\n		f.mu.Lock()\n		f.Priorities = append(f.Priorities, *priority)\n		f.mu.Unlock()\n	}")
+mut("C07", "headers-and-priority-in-two-steps", "pkg/metadata/http2.go",
+    '	"math"\n	"sync"', '	"math"\n	"runtime"\n	"sync"')
+mut("C07", "marshal-releases-lock-between-parts", "pkg/metadata/http2.go",
+    '	buf.WriteString("|")\n\n	// WINDOW_UPDATE frame', '	buf.WriteString("|")\n	f.mu.RUnlock()\n	runtime.Gosched()\n	f.mu.RLock()\n\n	// WINDOW_UPDATE frame')
+mut("C07", "marshal-releases-lock-between-parts", "pkg/metadata/http2.go",
+    '	"math"\n	"sync"', '	"math"\n	"runtime"\n	"sync"')
+mut("C07", "fingerprint-cached-per-connection", "pkg/fingerprint/fingerprint.go",
+    '		fp := data.HTTP2Frames.Marshal(p.MaxPriorityFrames)\n', '		h2CacheMu.Lock()\n		fp, hit := h2Cache[data]\n		if !hit {\n			fp = data.HTTP2Frames.Marshal(p.MaxPriorityFrames)\n			h2Cache[data] = fp\n		}\n		h2CacheMu.Unlock()\n')
+mut("C07", "fingerprint-cached-per-connection", "pkg/fingerprint/fingerprint.go",
+    "var (\n	VerboseLogs bool", "var (\n	h2CacheMu sync.Mutex\n	h2Cache   = map[*metadata.Metadata]string{}\n)\n\nvar (\n	VerboseLogs bool")
+mut("C07", "fingerprint-cached-per-connection", "pkg/fingerprint/fingerprint.go",
+    'import (\n	"fmt"\n	"log"\n', 'import (\n	"fmt"\n	"log"\n	"sync"\n')
+
+# ---- C12
+FL, WS, SV, TR = "pkg/http2/flow.go", "pkg/http2/writesched.go", "pkg/http2/server.go", "pkg/http2/transport.go"
+mut("C12", "outflow-available-ignores-conn-window", FL,
+    "	if f.conn != nil && f.conn.n < n {\n		n = f.conn.n\n	}\n	return n", "	return n")
+mut("C12", "consume-ignores-max-frame-size", WS,
+    "	if wr.stream.sc.maxFrameSize < allowed {\n		allowed = wr.stream.sc.maxFrameSize\n	}\n", "")
+mut("C12", "server-initial-window-delta-wrong-sign", SV,
+    "	growth := int32(val) - old // may be negative", "	growth := old - int32(val)")
+mut("C12", "server-initial-window-only-for-new-streams", SV,
+    "	for _, st := range sc.streams {\n		if !st.flow.add(growth) {", "	for _, st := range map[uint32]*stream{} {\n		if !st.flow.add(growth) {")
+mut("C12", "server-initial-window-decrease-ignored", SV,
+    "		if !st.flow.add(growth) {", "		if growth > 0 && !st.flow.add(growth) {")
+mut("C12", "server-padding-not-refunded", SV,
+    "		sc.sendWindowUpdate32(nil, pad)\n		sc.sendWindowUpdate32(st, pad)\n", "		_ = pad\n")
+mut("C12", "server-padding-conn-credit-not-refunded", SV,
+    "		sc.sendWindowUpdate32(nil, pad)\n", "")
+mut("C12", "server-closestream-unread-credit-lost", SV,
+    "		sc.sendWindowUpdate(nil, p.Len())\n", "")
+mut("C12", "server-closed-stream-data-credit-lost", SV,
+    "		sc.sendWindowUpdate(nil, int(f.Length)) // conn-level\n\n		if st != nil && st.resetQueued {", "		if st != nil && st.resetQueued {")
+mut("C12", "server-closed-body-data-credit-lost", SV,
+    "				sc.sendWindowUpdate(nil, int(f.Length)-wrote)\n", "")
+mut("C12", "server-processdata-no-stream-window-check", SV,
+    "		if !takeInflows(&sc.inflow, &st.inflow, f.Length) {", "		if !sc.inflow.take(f.Length) {")
+mut("C12", "server-body-read-credit-only-when-open", SV,
+    "	sc.sendWindowUpdate(nil, n) // conn-level\n	if st.state != stateHalfClosedRemote && st.state != stateClosed {\n", "	if st.state != stateHalfClosedRemote && st.state != stateClosed {\n		sc.sendWindowUpdate(nil, n)\n")
+mut("C12", "outflow-add-overflow-unchecked", FL,
+    "	if (sum > n) == (f.n > 0) {\n		f.n = sum\n		return true\n	}\n	return false", "	f.n = sum\n	return true")
+mut("C12", "inflow-take-accepts-one-byte-more", FL,
+    "func (f *inflow) take(n uint32) bool {\n	if n > uint32(f.avail) {", "func (f *inflow) take(n uint32) bool {\n	if n > uint32(f.avail)+1 {")
+mut("C12", "takeinflows-ignores-conn-window", FL,
+    "	if n > uint32(f1.avail) || n > uint32(f2.avail) {", "	if n > uint32(f2.avail) {")
+mut("C12", "inflow-min-refresh-64k", FL,
+    "const inflowMinRefresh = 4 << 10", "const inflowMinRefresh = 64 << 10")
+mut("C12", "transport-await-flow-ignores-max-frame-size", TR,
+    "			if take > int32(cc.maxFrameSize) {\n				take = int32(cc.maxFrameSize)\n			}\n", "")
+mut("C12", "transport-initial-window-only-for-new-streams", TR,
+    "			for _, cs := range cc.streams {\n				cs.flow.add(delta)\n			}\n", "")
+mut("C12", "transport-initial-window-delta-wrong-sign", TR,
+    "			delta := int32(s.Val) - int32(cc.initialWindowSize)", "			delta := int32(cc.initialWindowSize) - int32(s.Val)")
+mut("C12", "transport-padding-not-refunded", TR,
+    "		if pad := int(f.Length) - len(data); pad > 0 {\n			refund += pad\n		}\n", "")
+mut("C12", "transport-processdata-no-stream-window-check", TR,
+    "		if !takeInflows(&cc.inflow, &cs.inflow, f.Length) {", "		if !cc.inflow.take(f.Length) {")
+mut("C12", "transport-body-close-unread-credit-lost", TR,
+    "		connAdd := cc.inflow.add(unread)\n", "		connAdd := int32(0)\n")
+mut("C12", "transport-forgotten-stream-data-credit-lost", TR,
+    "			connAdd := cc.inflow.add(int(f.Length))\n", "			connAdd := int32(0)\n")
+mut("C12", "transport-window-update-wakes-nobody", TR,
+    "		return ConnectionError(ErrCodeFlowControl)\n	}\n	cc.cond.Broadcast()\n	return nil\n}", "		return ConnectionError(ErrCodeFlowControl)\n	}\n	return nil\n}")
+mut("C12", "undo-D16", TR,
+    "			cs.readAborted = true\n			cs.abortStreamLocked(StreamError{\n				StreamID: f.StreamID,\n				Code:     ErrCodeFlowControl,\n			})", "			rl.endStreamError(cs, StreamError{\n				StreamID: f.StreamID,\n				Code:     ErrCodeFlowControl,\n			})")
+
 def run(argv):
     props = [a for a in argv if a.startswith("C")]
     sub = None
